@@ -106,6 +106,11 @@ def check_read(case, ctx):
     ctx.count(f"order:{case['order']}")
     ctx.count(f"indent:{case.get('indent', '')!r}")
     ok, c = ctx.call(cg.io.bench_to_circuit, case["text"], "bt")
+    if len(case["text"]) % 4 == 0:
+        from rv.props._util import repeat_call
+
+        if not repeat_call(ctx, "bench_read", "bench_to_circuit", cg.io.bench_to_circuit, (case["text"], "bt"), {}, (ok, c)):
+            return
     if not ok:
         ctx.violation("bench_read_raised", f"bench_to_circuit raised {c!r}\n{getattr(c, '_tb', '')}")
         return
